@@ -4,7 +4,8 @@ Proof: coq/C01/Props.v (STFT: stream = full for ALL chunk lists, by the invarian
 of coq/Stft/Stream.v) and coq/C03/Props.v (short integration).
 Tie: hand-written model + correspondence (index-coded signals; the frames the
 implementation hands to its per-frame routine are compared, inside Coq, with the
-model's, over the whole utterance).  Search: chunked vs full on the real code.
+model's, over the whole utterance).  Search: chunked vs full on the real code,
+also when the caller hands the chunks over in one re-used (overwritten) block buffer.
 """
 
 import itertools
@@ -130,6 +131,113 @@ def float_oracle(ctx):
     return bad
 
 
+STFT_BANKS = {
+    "fbank": lambda f: f.Fbank(num_filts=8, sampling_rate=8000),
+    "gabor": lambda f: f.GaborFilterBank("mel", num_filts=5, sampling_rate=8000),
+    "tri-analytic": lambda f: f.TriangularOverlappingFilterBank("bark", num_filts=6, sampling_rate=8000, analytic=True),
+}
+
+
+def build_block_computer(spec):
+    from pydrobert.speech import compute, filters
+
+    if spec["computer"] == "si":
+        from . import c03
+
+        return c03.build_real_computer(spec["config"])
+    return compute.STFTFrameComputer(STFT_BANKS[spec["bank"]](filters), **spec["config"])
+
+
+def check_reused_block(spec):
+    """The caller streams the signal through ONE preallocated block buffer: it copies the next
+    block_size samples into the buffer, passes (the filled part of) the buffer to compute_chunk and,
+    once the call has returned, overwrites the buffer - with the next block, and with NaN / zeros when
+    spec['scribble'] says so, always before finalize.  That is one way of cutting the signal into
+    consecutive chunks, so the concatenated result equals compute_full.  -> list of failure texts."""
+    c = build_block_computer(spec)
+    dt = np.dtype(spec["dtype"])
+    x = np.random.RandomState(spec["seed"]).randn(spec["N"]).astype(dt)
+    x.setflags(write=False)
+    full = c.compute_full(x)
+    B, N = spec["block_size"], spec["N"]
+    junk = {"nan": np.nan, "zeros": 0.0, "next": None}[spec["scribble"]]
+    block = np.full(B, np.nan, dtype=dt)
+    outs = []
+    for p in range(0, N, B):
+        m = min(B, N - p)
+        block[:m] = x[p:p + m]
+        outs.append(c.compute_chunk(block[:m]))
+        if junk is not None:
+            block[:] = junk
+    block[:] = np.nan if junk is None else junk
+    outs.append(c.finalize())
+    block[:] = 0.0
+    got = np.concatenate(outs)
+    if spec["computer"] == "si":
+        tol = 1e-9 if dt.itemsize >= 8 else 1e-3
+        rtol, atol = tol, tol * max(1.0, float(np.max(np.abs(full))) if full.size else 1.0)
+    else:
+        rtol, atol = (1e-9, 1e-12) if dt.itemsize >= 8 else (2e-4, 1e-5)
+    if got.shape != full.shape:
+        return ["streaming through a reused block gives shape %r, compute_full %r" % (got.shape, full.shape)]
+    okm = np.isclose(got, full, rtol=rtol, atol=atol)
+    if not np.all(okm):
+        rows = sorted(set(int(k) for k in np.argwhere(~okm)[:, 0]))
+        return ["streaming through a reused block buffer of %d samples (frame_length %d, frame_shift %d): frames %s of %d "
+                "differ from compute_full (first: got %r, expected %r)"
+                % (B, c.frame_length, c.frame_shift, rows[:8], len(full), float(got[tuple(np.argwhere(~okm)[0])]),
+                   float(full[tuple(np.argwhere(~okm)[0])]))]
+    return []
+
+
+def reused_block_oracle(ctx):
+    """chunked == full when the chunks are handed over in a buffer the caller re-uses (the array
+    passed to compute_chunk belongs to the caller again as soon as the call returns): block sizes
+    below, at and above frame_length, STFT and short-integration computers."""
+    C.ensure_impl_path()
+    from . import c03
+
+    rng = ctx.rng
+    bad = []
+    for rep in range(ctx.scale(24, 160)):
+        if rng.random() < 0.6:
+            flm = rng.choice([5.0, 6.3, 10.0, 25.0])
+            spec = dict(computer="stft", bank=rng.choice(sorted(STFT_BANKS)),
+                        config=dict(frame_length_ms=flm, frame_shift_ms=rng.choice([1.0, 2.5, flm / 2, flm]),
+                                    frame_style=rng.choice(["causal", "centered"]), kaldi_shift=rng.random() < 0.4,
+                                    include_energy=rng.random() < 0.5, pad_to_nearest_power_of_two=rng.random() < 0.5))
+            c = build_block_computer(spec)
+            unit = c.frame_length
+        else:
+            c, cfgd = c03.make_real_computer(rng)
+            if not c03.comp_pre(c, cfgd):
+                continue
+            spec = dict(computer="si", config=cfgd)
+            unit = c._dft_size - c._max_support + 1
+        Lv, Sv = c.frame_length, c.frame_shift
+        if not (0 < Sv <= Lv):
+            continue
+        sizes = {1, Sv, max(1, Lv // 2), max(1, Lv - 1), Lv, Lv + 1, Lv + Sv, 2 * Lv + 3, unit, unit + 1, rng.randint(1, 3 * Lv)}
+        for B in sorted(set(rng.sample(sorted(sizes), min(6, len(sizes)))) | {Lv}):
+            N = rng.choice([B, 2 * B, 2 * B + Sv // 2, 3 * B + 1, Lv + B, rng.randint(0, 4 * max(B, Lv))])
+            if B < 4 and N > 300:
+                N = rng.randint(0, 300)
+            sp = dict(spec, kind="reused-block", N=N, block_size=B, dtype=rng.choice(["float64", "float64", "float32"]),
+                      seed=rng.randint(0, 1 << 30), scribble=rng.choice(["nan", "next", "zeros"]))
+            ctx.count("reused-block:%s:%s" % (spec["computer"], "B<L" if B < Lv else ("B=L" if B == Lv else "B>L")))
+            ctx.case(dict(kind="reused-block", computer=spec["computer"], config=spec["config"], bank=spec.get("bank"), N=N,
+                          block_size=B, scribble=sp["scribble"]), nontrivial=N > B and N + Sv // 2 >= Sv)
+            try:
+                msgs = check_reused_block(sp)
+            except Exception as e:  # noqa - every call of this streaming pattern is valid
+                msgs = ["streaming through a reused block buffer of %d samples raised %s: %s" % (B, type(e).__name__, e)]
+            for msg in msgs[:1]:
+                bad.append((msg, dict(sp, frame_length=Lv, frame_shift=Sv,
+                                      how="harness/c01.py:check_reused_block(spec); signal = "
+                                          "np.random.RandomState(seed).randn(N).astype(dtype)")))
+    return bad
+
+
 def run(ctx):
     C.ensure_impl_path()
     stft.regenerate(ctx)
@@ -184,12 +292,16 @@ def run(ctx):
             c03.run_si_stream_correspondence(ctx)
     except ImportError:
         ctx.assumptions.append("short-integration half not available in this build (harness/c03.py missing)")
+    # (after everything else: the random choices of the searches above stay what they were)
+    for msg, b in reused_block_oracle(ctx)[:5]:
+        ctx.fail("chunked streaming differs from compute_full when the caller re-uses its chunk buffer: " + msg, b, kind="impl")
     ctx.cov["rule"] = (
         "STFT: random (L<=24/40, S<=L, style) x signal lengths biased to the boundaries {S//2, L//2, L//2+1, L-1, L, L+jS+r} "
         "x compositions (one chunk, all ones, small, big, mixed with empty chunks) and frame_by_frame_calculation chunk sizes; "
         "thorough adds every composition of every N<=9 for every L<=6 and speech-scale framings. Signals are 0..N-1 so every "
         "frame is an exact index list, compared inside Coq with the model. non-trivial = at least one frame and at least two chunks; "
-        "distinct = distinct (cfg, N, chunk lengths)."
+        "distinct = distinct (cfg, N, chunk lengths). Float search on real banks: random chunkings, and fixed-size blocks "
+        "(below / at / above frame_length) streamed through ONE caller-owned buffer that is overwritten after every call."
     )
     ctx.cov["trusted_base"] += [
         "model of NumPy slicing / np.pad(symmetric) in coq/lib/ZList.v + coq/Stft/Model.v (validated by the correspondence)",
@@ -207,6 +319,13 @@ def replay(ctx, rp):
 
     f = rp.get("failure", {}).get("replay", {})
     print(json.dumps(rp.get("failure", {}), indent=1, default=str)[:4000])
+    if f.get("kind") == "reused-block":
+        msgs = check_reused_block(f)
+        for m in msgs:
+            print("VIOLATION property=C01 replay=(replayed case reproduces):", m)
+        if not msgs:
+            print("replayed case does not reproduce on this tree")
+        return 1 if msgs else 0
     if not all(k in f for k in ("L", "S", "N")) or not isinstance(f.get("chunk_lengths"), list):
         print("replay: nothing executable recorded (proof / correspondence failure): see the fields above")
         return 0
